@@ -483,12 +483,54 @@ Proof.
 Qed.
 Print Assumptions C15_bitcoind_rescan_follows_reorg.
 
-(** PARTIAL: the theorem covers a common ancestor that is still in the
-    rescan's header list (at or above the block the rescan started from).  A
-    reorganisation that reaches BELOW the start block takes the branch that
-    asks the node for headers; it is part of the executable model and of the
-    correspondence run (witness w-rescan-reorg-below-rescan-start, generated
-    cases tagged reorg_during_rescan_below_start_block), not of this theorem. *)
+(** The general case: the header list [st] may stop anywhere above the common
+    ancestor - the rescan started there ([stack_agrees st j old_top fork]: as far as
+    it goes, it lists the blocks of the old branch downwards and then the
+    ancestor).  When it runs out during the walk back the loop asks the node
+    for the headers below (the node knows the ancestor with its height).  A
+    reorganisation that reaches BELOW the block the rescan started from is
+    therefore covered: same stream, [emit c e]. *)
+Theorem C15_bitcoind_rescan_follows_reorg_from_any_start : forall t anc fork fhd deeper old_top new_low nb new_high st,
+  let c := anc ++ rev old_top in
+  let j := tip_height c in
+  let new := rev new_low ++ nb :: new_high in
+  let e := evo_of old_top (rev new) in
+  t !! bh fork = Some fhd -> p_height fhd = j - Z.of_nat (length old_top) ->
+  dlinked t old_top j (bh fork) ->
+  alinked t (bh fork) (j - Z.of_nat (length old_top) + 1) new ->
+  differ2 old_top new_low ->
+  stack_agrees st j old_top fork ->
+  exists s',
+    rescan t
+      {| r_prev := top_hash old_top (bh fork); r_prevh := j; r_stack := st;
+         r_i := j + 1; r_below := map bh new_low ++ bh fork :: deeper; r_above := map bh (nb :: new_high) |} =
+    Some (emit c e, s').
+Proof.
+  intros t anc fork fhd deeper old_top new_low nb new_high st. unfold rescan.
+  rewrite (eq_refl : bitcoind_rescan_steps_down = true).
+  exact (rescan_is_emit_gen t anc fork fhd deeper old_top new_low nb new_high st).
+Qed.
+Print Assumptions C15_bitcoind_rescan_follows_reorg_from_any_start.
+
+(** Non-vacuity of the general case: rescan started at block 5 (height 4),
+    which is itself replaced: header list [(5, 4)] only; old branch 5,4 above
+    block 3; new branch 6,7,8. *)
+Example C15_bitcoind_rescan_below_start_nonvacuous :
+  let b (i : N) (tm : Z) := {| bh := i; bt := tm |} in
+  t_ex !! 3%N = Some {| p_prev := 2%N; p_height := 2; p_time := 102 |} /\
+  stack_agrees [(5%N, 4)] 4 [b 5%N 104; b 4%N 103] (b 3%N 102) /\
+  exists s', rescan_with true t_ex
+    {| r_prev := 5%N; r_prevh := 4; r_stack := [(5%N, 4)]; r_i := 5;
+       r_below := [7%N; 6%N; 3%N; 2%N; 1%N]; r_above := [8%N] |} =
+    Some ([NDisconnect {| m_height := 4; m_hash := 5%N; m_time := 104 |};
+           NDisconnect {| m_height := 3; m_hash := 4%N; m_time := 103 |};
+           NConnect {| m_height := 3; m_hash := 6%N; m_time := 113 |};
+           NConnect {| m_height := 4; m_hash := 7%N; m_time := 114 |};
+           NConnect {| m_height := 5; m_hash := 8%N; m_time := 115 |}], s').
+Proof.
+  cbv zeta. split; [vm_compute; reflexivity|]. split; [repeat split|].
+  eexists. vm_compute. reflexivity.
+Qed.
 
 (** What the pinned code did (fact [false]): rescan from block 1, old branch
     2,3,4,5 notified, node now on 1,2,3,6,7,8: the walk back never leaves the
